@@ -1,4 +1,6 @@
 import Ww.Gen.Meta
+import Ww.Model.Sys
+import Ww.Proofs.C06
 /-!
 # C08 — Automatic refresh follows the documented schedule, cooldown and mode rules
 
@@ -136,5 +138,69 @@ def sample : Metadata := { Session := { CreatedAt := 1000000000000, EndsAt := 37
 example : sample.ShouldRefresh 1310000000000 = true ∧ sample.IsExpired 1310000000000 = false ∧
           (sample.Session.TimeoutAt = 0 ∨ sample.Tokens.RefreshedAt ≤ sample.Session.TimeoutAt) ∧ 1 ≤ sample.TokenLifetime 0 := by decide
 example : sample.ShouldRefresh 1299000000000 = false := by decide
+
+
+/-! ## mode rules and "never" rules, over the handler model -/
+open Ww.Model
+
+/-- automatic refresh happens only where it is available: never in an SSO proxy, never in SSO mode without forward-auth -/
+theorem auto_refresh_modes (cfg : Cfg) (ck : CookieSt) (st : StoreSt) (plan : IdpPlan) (a r : String) (now : Int)
+    (h : (getSession cfg ck st plan a r now).contacted = true) : cfg.mode ≠ .ssoProxy ∧ cfg.autoRefreshDisabled = false := by
+  unfold getSession at h
+  split at h
+  · dsimp only at h; split at h <;> simp at h
+  · rename_i hm; simp at hm; exact hm
+
+/-- the read-only session endpoint never refreshes -/
+theorem info_never_refreshes (ck : CookieSt) (st : StoreSt) (now : Int) : (sessionInfo ck st now).contacted = false ∧ (sessionInfo ck st now).store = st := by
+  unfold sessionInfo; dsimp only; repeat' split
+  all_goals exact ⟨rfl, rfl⟩
+
+/-- whenever any handler contacts the provider for a refresh, the stored session is live (not ended, not inactive, has an access token),
+    has a refresh token and its cooldown is over -/
+theorem contact_needs_refreshable (cfg : Cfg) (d0 d : Data) (plan : IdpPlan) (a r : String) (now : Int)
+    (h : (refresh cfg d0 (.present d) plan a r now).contacted = true) :
+    d.Validate now = [] ∧ d.RefreshToken ≠ "" ∧ d.Metadata.IsRefreshOnCooldown now = false := by
+  obtain ⟨hv, hc⟩ := Ww.Proofs.C06.no_refresh_when_dead cfg d0 d plan a r now h
+  refine ⟨hv, ?_, ?_⟩
+  · unfold canRefresh Data.HasRefreshToken at hc
+    simp at hc
+    intro he; rw [he] at hc; simp at hc
+  · unfold canRefresh at hc; simp at hc; exact hc.2
+
+/-- the automatic path contacts the provider only when the schedule says a refresh is due -/
+theorem auto_contact_due (cfg : Cfg) (d : Data) (plan : IdpPlan) (a r : String) (now : Int)
+    (h : (getOrRefresh cfg .valid (.present d) plan a r now).contacted = true) : d.Metadata.ShouldRefresh now = true := by
+  unfold getOrRefresh getSess at h
+  cases hve : validateErr d now <;> simp [hve] at h
+  by_cases hs : shouldRefresh d now
+  · exact hs
+  · simp [hs] at h
+
+/-- manual refresh is idempotent during cooldown: 200, same metadata, store and provider untouched -/
+theorem manual_refresh_idempotent (cfg : Cfg) (d : Data) (plan : IdpPlan) (a r : String) (now : Int)
+    (hv : d.Validate now = []) (hc : d.Metadata.IsRefreshOnCooldown now = true) :
+    sessionRefresh cfg .valid (.present d) plan a r now = ⟨200, .present d, false, false, some d⟩ := by
+  have hve := Ww.Proofs.C01.validateErr_of_nil d now hv
+  have hcr : canRefresh d now = false := by unfold canRefresh; simp [hc]
+  unfold sessionRefresh refresh getSess
+  simp [hve, hcr]
+
+/-- an expired token on a live, refreshable session IS refreshed by a proxied request where auto-refresh is available -/
+theorem expired_is_refreshed (cfg : Cfg) (d : Data) (plan : IdpPlan) (a r : String) (now : Int)
+    (hm : cfg.mode ≠ .ssoProxy) (ha : cfg.autoRefreshDisabled = false)
+    (hv : d.Validate now = []) (he : d.Metadata.IsExpired now = true) (hr : d.RefreshToken ≠ "") (hl : 0 ≤ d.Metadata.TokenLifetime now) :
+    (getSession cfg .valid (.present d) plan a r now).contacted = true := by
+  have hve := Ww.Proofs.C01.validateErr_of_nil d now hv
+  have hsr : shouldRefresh d now = true := refresh_when_expired d.Metadata now he
+  have hcd := expired_not_cooling d.Metadata now hl he
+  have hrt : d.HasRefreshToken now = true := by
+    unfold Data.HasRefreshToken; simp
+    have : d.RefreshToken.length ≠ 0 := fun h0 => hr (String.length_eq_zero_iff.mp h0)
+    omega
+  have hcr : canRefresh d now = true := by unfold canRefresh; simp [hrt, hcd]
+  unfold getSession getOrRefresh refresh getSess
+  simp [hm, ha, hve, hsr, hcr]
+  cases plan <;> simp [SessErr.isInvalid]
 
 end Ww.Proofs.C08
